@@ -17,10 +17,10 @@ go test -vet=off -count=1 -timeout 25m . > $W/suite.out 2>&1; tail -3 $W/suite.o
 grep -q "^ok" $W/suite.out && echo "suite-with-patch: ok" >> $L || echo "suite-with-patch: FAIL" >> $L
 cp $DEMO $W/zz_demo_test.go
 TESTS=$(grep -o "^func Test[A-Za-z0-9_]*" $W/zz_demo_test.go | sed 's/func //' | paste -sd'|')
-go test -vet=off -count=1 -timeout 10m -run "^($TESTS)\$" . > $W/demo1.out 2>&1; tail -4 $W/demo1.out >> $L
+go test $DEMOFLAGS -vet=off -count=1 -timeout 10m -run "^($TESTS)\$" . > $W/demo1.out 2>&1; tail -4 $W/demo1.out >> $L
 grep -q "^ok" $W/demo1.out && echo "demo-with-patch: PASS (unexpected)" >> $L || echo "demo-with-patch: FAIL (expected)" >> $L
 git apply -R $PATCH
-go test -vet=off -count=1 -timeout 10m -run "^($TESTS)\$" . > $W/demo0.out 2>&1; tail -3 $W/demo0.out >> $L
+go test $DEMOFLAGS -vet=off -count=1 -timeout 10m -run "^($TESTS)\$" . > $W/demo0.out 2>&1; tail -3 $W/demo0.out >> $L
 grep -q "^ok" $W/demo0.out && echo "demo-without-patch: PASS (expected)" >> $L || echo "demo-without-patch: FAIL (unexpected)" >> $L
 cd /; git -C /repo worktree remove --force $W
 grep -E "^(build|suite|demo)-" $L | tr '\n' ';'; echo
